@@ -617,6 +617,7 @@ def call_pandas(it, fn, args, kwargs, node, fr):
         if a is not None and names is not None and len(names) == len(a.cols):
             f = Frame(dict(zip(names, a.cols)), list(names), name="new", space=a.space)
             f.labels_positional = True
+            f.alloc = getattr(a, "alloc", None)
             return f
         if data is None and cols is None:
             f = Frame(name="empty", order=[])
